@@ -105,6 +105,7 @@ func RunCase(prog *ssa.Program, pkg *ssa.Package, harness string, shape map[stri
 	var st *State
 	pruned := false
 	func() {
+		defer e.killCoros()
 		defer func() {
 			if r := recover(); r != nil {
 				switch x := r.(type) {
